@@ -3,7 +3,7 @@
 import glob, os, subprocess, sys, concurrent.futures as cf
 V = os.path.dirname(os.path.dirname(os.path.abspath(__file__)))
 def one(f):
-    out = os.path.join(V, 'build', 'regress', os.path.basename(f))
+    out = os.path.join(V, 'build', 'regress_' + os.path.basename(f))
     os.makedirs(os.path.dirname(out), exist_ok=True)
     p = subprocess.run([sys.executable, os.path.join(V, 'tools', 'weave.py'), f, out], capture_output=True, text=True)
     if p.returncode == 0:
